@@ -56,6 +56,24 @@ IDf(Y, X, Pe, G) ==
 
 IDRef(G, X, Y) == IDf(Y, X, ObsJoint(G.n), G)
 
+\* how many times line 7 is applied along one recursion path of ID (structure only; 0 for queries that never reach it):
+\* used by the generators to find the inputs on which the current distribution of a line-7 sub-problem is itself the
+\* result of a line 7 (these start at 5 nodes)
+RECURSIVE L7Depth(_, _, _)
+L7Depth(Y, X, G) ==
+  LET V   == G.n
+      AnY == An(G, Y)
+      W   == (V \ X) \ An(RemoveIn(G, X), Y)
+      GX  == SubG(G, V \ X)
+      CX  == Districts(GX)
+  IN IF X = {} THEN 0
+     ELSE IF V \ AnY # {} THEN L7Depth(Y, X \cap AnY, SubG(G, AnY))
+     ELSE IF W # {} THEN L7Depth(Y, X \cup W, G)
+     ELSE IF Cardinality(CX) > 1 THEN Max({L7Depth(District(GX, m), V \ District(GX, m), G) : m \in {Min(S) : S \in CX}})
+     ELSE LET S == Pick(CX) IN
+        IF Districts(G) = {V} \/ S \in Districts(G) THEN 0
+        ELSE LET Sp == Pick({D \in Districts(G) : S \subseteq D}) IN 1 + L7Depth(Y, X \cap Sp, SubG(G, Sp))
+
 \* ---------------------------------------------------------------- Tian / Huang-Valtorta
 RECURSIVE TIdent(_, _, _)
 \* can Q[C] be computed from Q[T], C subset of T, both bidirected-connected in their induced graphs?
